@@ -157,13 +157,14 @@ theorem fillLoop_spec (cfg : Config) (inp : Bytes) (fuel : Nat) (s : LB) (r : Re
 theorem fill_spec (cfg : Config) (inp : Bytes) (s : LB) (r : Reader) (a m rest : Bytes)
     (hinv : Inv cfg inp s r a m rest) :
     ∃ m' rest', Inv cfg inp (s.fill r).1 (s.fill r).2.1 a m' rest' ∧ (s.fill r).1.abs = s.abs ∧
-      FillPost cfg.lineterm (s.fill r).1 (s.fill r).2.1 (NoZero r.script) (s.fill r).2.2 := by
+      FillPost cfg.lineterm (s.fill r).1 (s.fill r).2.1 (NoZero r.script) (s.fill r).2.2 ∧
+      (¬ s.stopped → (s.fill r).1.pos = 0) := by
   unfold LB.fill
   by_cases hs : s.stopped
   · have hs' : (s.cfg.binary.isQuit && s.binOff.isSome) = true := by
       unfold LB.stopped at hs; simp [hs.1, hs.2]
     rw [if_pos hs']
-    refine ⟨m, rest, hinv, rfl, ?_⟩
+    refine ⟨m, rest, hinv, rfl, ?_, fun h => absurd hs h⟩
     refine ⟨rfl, Or.inl ⟨hinv.hstop hs, Or.inl hs⟩, ?_⟩
     show cfg.lineterm ∉ s.buf.drop s.last
     rw [hinv.hstop hs]
@@ -183,7 +184,7 @@ theorem fill_spec (cfg : Config) (inp : Bytes) (s : LB) (r : Reader) (a m rest :
       exact hs
     obtain ⟨m', rest', f1, f2, f3, f4⟩ :=
       fillLoop_spec cfg inp (r.data.length + r.script.length + 1) s.roll r a m r1 r2 hns (by omega) (by rw [r5]; simp)
-    exact ⟨m', rest', f1, by rw [f3, r3], f4⟩
+    exact ⟨m', rest', f1, by rw [f3, r3], f4, fun _ => f2⟩
 
 theorem run_inv (cfg : Config) (inp : Bytes) (ops : List Op) : ∀ (s : LB) (r : Reader) (a m rest : Bytes),
     Inv cfg inp s r a m rest →
@@ -194,7 +195,7 @@ theorem run_inv (cfg : Config) (inp : Bytes) (ops : List Op) : ∀ (s : LB) (r :
     intro s r a m rest h
     cases op with
     | fill =>
-      obtain ⟨m', rest', h1, _, _⟩ := fill_spec cfg inp s r a m rest h
+      obtain ⟨m', rest', h1, _, _, _⟩ := fill_spec cfg inp s r a m rest h
       simp only [run]
       exact ih _ _ _ _ _ h1
     | consume n =>
